@@ -244,7 +244,19 @@ def run_shard(params):
     res = Result()
     rng = random.Random(params["seed"] * 100391 + params["shard"])
     for i in range(params["n"]):
-        check_case(rng, res)
+        try:
+            check_case(rng, res)
+        except (ValueError, TypeError, KeyError, IndexError,
+                struct.error, AttributeError) as ex:
+            import traceback
+            tb = traceback.format_exc()
+            if "/ebpfcat/" not in tb.split("check_case")[-1]:
+                raise          # the harness's own fault
+            res.violation("unexplained:variable-access-raised",
+                          f"reading / writing a device variable of a "
+                          f"process-based group raised "
+                          f"{type(ex).__name__}: {ex}",
+                          witness=tb[-1200:])
     return res
 
 
